@@ -127,7 +127,7 @@ def coq_check_property(pid):
     Returns dict(ok, obligations, discharged, broken, assumptions, output)."""
     vfile = os.path.join(COQ, "Properties", pid + ".v")
     res = dict(ok=False, obligations=0, discharged=0, broken=[], assumptions=[], output="", statements=[])
-    src = open(vfile).read()
+    src = re.sub(r"\(\*.*?\*\)", "", open(vfile).read(), flags=re.S)
     theorems = re.findall(r"^\s*(?:Theorem|Corollary)\s+([A-Za-z0-9_']+)", src, re.M)
     res["obligations"] = len(theorems)
     res["statements"] = theorems
